@@ -26,6 +26,12 @@ def main():
                     env.reset()          # every replay starts from cold caches (a violation may have polluted them)
                 return mod.replay_case(v["kind"], v["case"])
             for v in arg["violations"]:
+                if arg.get("single"):
+                    # one replay per process: the driver compares two processes (state that survives env.reset() -
+                    # a mutable default argument, a module global - must not leak from one replay into the next)
+                    got = one(v)
+                    res["replays"].append({"signature": v["signature"], "runs": [sorted(set(x["signature"] for x in got))], "details": got})
+                    continue
                 runs = []
                 for _ in range(2):
                     got = one(v)
